@@ -287,7 +287,7 @@ impl W {
         let out = self.dev.take_tx();
         match r {
             Ok(()) => {
-                let pa = self.iface.poll_at(Instant::from_millis(now), &self.sockets).map(|x| (x.total_micros() + 999).div_euclid(1000)).unwrap_or(-1);
+                let pa = self.iface.poll_at(Instant::from_millis(now), &self.sockets).map(crate::util::ms_ceil).unwrap_or(-1);
                 let outs: Vec<Value> = out.iter().map(|o| self.proj(o, true)).collect();
                 let q: Vec<Value> = self.socks.iter().map(|s| match s.kind {
                     0 => {
@@ -437,7 +437,7 @@ pub fn random(args: &Args) {
             if let Some(p) = pending.first() {
                 tn = tn.min(p.0.max(w.now));
             }
-            let pa = w.iface.poll_at(Instant::from_millis(w.now), &w.sockets).map(|x| (x.total_micros() + 999).div_euclid(1000)).unwrap_or(-1);
+            let pa = w.iface.poll_at(Instant::from_millis(w.now), &w.sockets).map(crate::util::ms_ceil).unwrap_or(-1);
             if pa >= 0 {
                 tn = tn.min(pa.max(w.now));
             }
